@@ -1,6 +1,6 @@
 (* C05 - parameters are decoded as the inverse of OpenAPI style serialisation. *)
 From KV Require Import Model.Base Model.Json Model.Schema Model.Request Model.Lookup Model.ParamCodec
-     Spec.ParamSpec Proofs.C05Proofs Proofs.C05Object.
+     Spec.ParamSpec Proofs.C05Proofs Proofs.C05Object Proofs.C05Absent.
 Local Open Scope list_scope.
 
 (* strings.Split inverts strings.Join for any separator and any non-empty list of elements that
@@ -69,6 +69,17 @@ Theorem C05_absent_optional :
     decode_param pi64 pi32 pf p f = DRes PNil false None -> pd_required p = false ->
     validate_param pi64 pi32 pf rc rm fo multi p f = VOk.
 Proof. exact absent_optional. Qed.
+(* an exploded form object shares the query with every other parameter: for every object schema
+   without an additionalProperties schema and every query none of whose keys is one of its declared
+   properties, it is decoded as absent - so, by the two theorems above, reported missing when
+   required and accepted when optional (the defect repaired in /repo 2109f56: it was decoded as {}) *)
+Theorem C05_object_absent_among_other_parameters :
+  forall pi64 pi32 pf name s decl q,
+    shape_of s = ShObj decl None ->
+    (forall k, In k (map fst decl) -> assoc k (map (fun kv : string * list string => (fst kv, first_of (snd kv))) q) = None) ->
+    query_decode pi64 pi32 pf name "form" true s q = DRes PNil false None.
+Proof. exact query_object_absent_among_others. Qed.
+Print Assumptions C05_object_absent_among_other_parameters.
 Theorem C05_undecodable_rejected :
   forall pi64 pi32 pf rc rm fo multi p f v found e,
     decode_param pi64 pi32 pf p f = DRes v found (Some e) ->
